@@ -156,6 +156,21 @@ func (e *env) build(t tk) (*block.VerificationTicket, string) {
 	return vt, fmt.Sprintf("(Build_nt_ticket %s %s)", vh.Nat(vid), errTerm)
 }
 
+// errOf is the ticket's error term as a number (nil when it has none: undecodable or for another hash).
+func (e *env) errOf(t tk) *big.Int {
+	_, term := e.build(t)
+	i := strings.Index(term, "(Some 0x")
+	if i < 0 {
+		return nil
+	}
+	h := strings.TrimSuffix(term[i+len("(Some 0x"):], "))")
+	v, ok := new(big.Int).SetString(h, 16)
+	if !ok {
+		return nil
+	}
+	return v
+}
+
 func (e *env) isValid(t tk) bool {
 	return t.V >= 0 && t.V < e.s.N && (t.Kind == "valid" || (t.Kind == "otherkey" && e.s.N == 1))
 }
@@ -362,20 +377,37 @@ func run1(s scen) *outcome {
 			// distinct members, enough of them, and individually valid unless errors cancel
 			ids := map[int]bool{}
 			okAll := true
-			cancelling := 0
+			invalid := 0
 			for _, t := range l {
 				if t.V < 0 || t.V >= s.N || ids[t.V] {
 					okAll = false
 				}
 				ids[t.V] = true
-				if t.Kind == "plus" || t.Kind == "minus" {
-					cancelling++
+				if !e.isValid(t) {
+					invalid++
 				}
 			}
 			if !okAll || len(ids) < thr {
 				o.fail("notarization-accepted-without-threshold-miners", fmt.Sprintf("VerifyNotarization accepted %+v (threshold %d of %d)", l, thr, s.N))
-			} else if cancelling < 2 && e.validMiners(l) < thr {
-				o.fail("notarization-accepted-with-invalid-ticket", fmt.Sprintf("VerifyNotarization accepted %+v with %d valid tickets (threshold %d)", l, e.validMiners(l), thr))
+			} else if invalid == 1 {
+				// one bad signature cannot cancel in the aggregate check
+				o.fail("notarization-accepted-with-invalid-ticket", fmt.Sprintf("VerifyNotarization accepted %+v with one invalid ticket (threshold %d)", l, thr))
+			} else if invalid >= 2 {
+				// two or more bad signatures pass the plain-sum aggregate check exactly when their errors
+				// cancel: C32's finding (cancelling forgeries); anything else is a failure of this property
+				sum, none := big.NewInt(0), false
+				for _, t := range l {
+					if d := e.errOf(t); d == nil {
+						none = true
+					} else {
+						sum.Add(sum, d)
+					}
+				}
+				if none || sum.Mod(sum, groupOrder).Sign() != 0 {
+					o.fail("notarization-accepted-with-invalid-ticket", fmt.Sprintf("VerifyNotarization accepted %+v with %d invalid tickets whose errors do not cancel (threshold %d)", l, invalid, thr))
+				} else {
+					o.hist["verify-notarization-accepted-cancelling-errors"]++
+				}
 			}
 		} else if e.validMiners(l) == len(l) && len(l) >= thr && distinctV(l) {
 			o.fail("valid-notarization-rejected", fmt.Sprintf("VerifyNotarization rejected %d valid tickets of distinct miners (threshold %d): %v", len(l), thr, verr))
